@@ -479,6 +479,23 @@ def discharge(prog, f, b, t, kind, ds):
                     good = False
             if good:
                 return "the subtrahend counts elements of an iterator over the same text (or is 0), so it is <= len"
+        # an explicit maximum: `let v = if x < c { c } else { x }; v - c` -- every assignment of v is a constant >= c or a value known to be >= c
+        if A[0] == "var" and B[0] == "const" and isinstance(B[1], int) and not isinstance(B[1], bool):
+            defs = f.defs.get(A[1], [])
+            good = bool(defs) and all(len(x[3]) == 1 for x in defs)
+            for df in defs if good else []:
+                if df[0] != "s":
+                    good = False
+                    break
+                d2 = strip(f.desc_rvalue(df[4]))
+                if d2[0] == "const" and isinstance(d2[1], int) and not isinstance(d2[1], bool) and d2[1] >= B[1]:
+                    continue
+                if d2[0] != "const" and implies_ge(cmp_facts(f, df[1]), d2, B):
+                    continue
+                good = False
+                break
+            if good:
+                return "every assignment of the minuend is a constant >= %s or a value tested to be >= %s" % (B[1], B[1])
         # (a + b) - b  /  a.len() - a.len()
         if A == B:
             return "x - x"
